@@ -257,6 +257,16 @@ for ol, ot in LOOP_OUTER:
                     "{% if loop.depth0 == 0 %}" + pt.replace("#", st_) + "{% endif %}{% endfor %}")
             LOOP_HOLES.append(("recursive-loop:%s/%s/%s" % (ol, pl, sl), ot.replace("@", core)))
 LOOP_FORMS = {"var", "attr", "filter-arg", "call-arg"}
+LOOP_GUARD = "{% if loop.depth0 == 0 %}"
+
+
+def loop_known_class(hl):
+    """known finding recursive-loop-reentered-from-macro-context: the loop is re-entered through a NON-emit
+    spelling from inside a macro or call-block body"""
+    if not hl.startswith("recursive-loop:"):
+        return False
+    outer, place, spell = hl.split(":", 1)[1].split("/")
+    return place in ("macro-in-loop", "macro-in-macro", "callblock-body") and spell != "emit"
 NAMES_FULL = ["x", "loop"]
 NAMES_SPECIAL = ["self", "super", "caller", "varargs", "kwargs", "range", "namespace"]
 SPECIAL_FORMS = {"var", "attr", "item-base", "slice-base", "call-callee", "call-callee-noargs", "method-base", "filter-arg", "call-arg", "method-chain"}
@@ -559,7 +569,12 @@ def recursion_mutation(body, rng):
                 lst = list(st); lst[k] = rebuild(st[k], path[2:]); new = tuple(lst)
         return b[:i] + [new] + b[i + 1:]
     wr = ("macro", "wr", [], [], [("emit", ("call", "caller", [], []))])
-    return [wr] + rebuild(list(body), path)
+    known = place in (2, 3) and spell != 0         # non-emit spelling inside a macro / call-block body
+    guard_off = ("if", [(("bool", False), inner)], None)
+    on = [wr] + rebuild(list(body), path)
+    guard = guard_off
+    off = [wr] + rebuild(list(body), path)
+    return on, known, off
 
 
 def has_loop_control(st):
@@ -885,6 +900,18 @@ def main():
                 fails.setdefault(("expression-api", c[0], c[1]), (("expression-api", c[0], c[1], c[2], c[3], c[4]), r, mm, rel))
     # attribute each failing (hole, form) to the form (fails in a plain {{ }} too), to the hole (fails with the
     # plain variable), or to the pair
+    # known finding: a recursive loop re-entered (non-emit spelling) from a macro / call-block body.  A failing case of
+    # exactly that class is set aside when the same template with the recursive call switched off is sound.
+    kl = [k for k in fails if loop_known_class(k[0])]
+    loop_known_hits = 0
+    if kl:
+        off = run_c18([req_t(fails[k][0][4].replace(LOOP_GUARD, "{% if false %}"), fails[k][0][5]) for k in kl])
+        n_eval += len(off)
+        for k, r in zip(kl, off):
+            m0 = missing_of(r)
+            if m0 is not None and not (m0[0] or m0[1]):
+                del fails[k]
+                loop_known_hits += 1
     classes = collections.OrderedDict()
     call_holes = [h for h, _ in CALL_HOLES]
     for (hl, fl, vn), v in fails.items():
@@ -978,7 +1005,7 @@ def main():
                     else:
                         direct.append((i, rel, md))          # debug info only matters on the error path
     # ---------------- leg 2c: operation sequences (load, reconfigure, analyse) -------------------------
-    hsrcs = [(c[4], c[5]) for c in cc if c[1] == "var" and c[2] == "x" and c[3] == "pairs"]
+    hsrcs = [(c[4], c[5]) for c in cc if c[1] == "var" and c[2] == "x" and c[3] == "pairs" and not loop_known_class(c[0])]
     hsrcs += [(preqs[i]["tpl"], progs[i][1]) for i in range(min(len(progs), 4000 if chk.thorough else 250)) if "[" not in preqs[i]["tpl"] or True]
     pairs_ab = [("default", "angle"), ("angle", "default"), ("default", "latex"), ("erb", "angle"), ("default", "default"), ("latex", "default")]
     hreqs = []
@@ -1034,11 +1061,12 @@ def main():
     chk.cov["block_leg"] = {"programs": len(bprogs), "violations": len(bdirect),
                             "sample": breqs[0]["tpl"][:400] if breqs else None}
     # ---------------- leg 2d: the same programs with one loop made recursive and re-entered (engine only) -------
-    rprogs = []
+    rprogs, rmeta = [], []
     for body, ctx in progs[:(min(len(progs), 60000) if chk.thorough else min(len(progs), 2500))]:
         rb = recursion_mutation(body, chk.rng)
         if rb is not None:
-            rprogs.append((rb, ctx))
+            rprogs.append((rb[0], ctx))
+            rmeta.append((rb[1], rb[2]))
     rreqs = [req_t(proggen.body_src(b), ctx) for b, ctx in rprogs]
     rdirect = []
     for rel in (False, True):
@@ -1056,7 +1084,17 @@ def main():
                     nontriv.add(rreqs[i]["tpl"] + json.dumps(rprogs[i][1], sort_keys=True))
             if mm[0] or mm[1]:
                 rdirect.append((i, rel, mm))
-    chk.cov["recursive_loop_leg"] = {"programs": len(rprogs), "violations": len(rdirect), "sample": rreqs[0]["tpl"][:400] if rreqs else None}
+    # known class: set aside when the same program with the recursive call switched off is sound
+    cand = sorted(set(i for i, rel, mm in rdirect if rmeta[i][0]))
+    if cand:
+        offr = run_c18([req_t(proggen.body_src(rmeta[i][1]), rprogs[i][1]) for i in cand])
+        n_eval += len(offr)
+        okset = set(i for i, r in zip(cand, offr) if missing_of(r) is not None and not any(missing_of(r)))
+        loop_known_hits += len(okset)
+        rdirect = [x for x in rdirect if x[0] not in okset]
+    chk.cov["recursive_loop_leg"] = {"programs": len(rprogs), "violations": len(rdirect), "known_class_cases": loop_known_hits,
+                                     "sample": rreqs[0]["tpl"][:400] if rreqs else None}
+    kentry3 = chk.match_known(lambda k: k["id"] == "recursive-loop-reentered-from-macro-context")
     # ---------------- known finding: debug() dumps the whole context ------------------------------------------------
     dres = run_c18([req_t("{{ debug() }}", {"secret_key": 1, "other": 2})])[0]
     n_eval += 1
@@ -1143,6 +1181,12 @@ def main():
         chk.violation("undeclared_variables omits a variable the render reads (generated program with a re-entered recursive loop)",
                       {"template": src, "context": ctx, "asked": r["asked"], "reported": r["flat"], "reported_nested": r["nested"],
                        "missing": m2[0], "missing_nested": m2[1], "profile": "release" if rel else "debug"})
+    if loop_known_hits:
+        if kentry3 is not None:
+            chk.known_finding(kentry3["id"], kentry3["what"])
+        else:
+            chk.violation("a recursive loop re-entered from a macro context reads outer names from the render context",
+                          {"template": "{% set t = 7 %}{% for y in l recursive %}{{ t }}{% macro m() %}{{ loop([5])|string }}{% endmacro %}{% if loop.depth0 == 0 %}{{ m() }}{% endif %}{% endfor %}", "context": {"l": [1]}})
     if dbgfn_seen:
         if kentry2 is not None:
             chk.known_finding(kentry2["id"], kentry2["what"])
